@@ -56,20 +56,74 @@ type mLayout struct {
 	GatesOff int    // where the gate records start (HeaderOK only)
 	Rest     int    // offset of the first byte after the last complete gate record
 	TooBig   string // non-empty: a declared size exceeds maxDeclared
-	// BeyondFirstBlock: a non-empty string ends beyond file offset 4096 while
-	// the file is longer than that (the input class of finding F10).
-	BeyondFirstBlock bool
+	// AcrossBuffer is the input class of finding F10: a string is declared
+	// to extend beyond the bytes a 4096-byte buffered reader holds at that
+	// point although the file continues (see bufModel).
+	AcrossBuffer bool
 	NumGates         uint32
 	NumWires         uint32
+}
+
+// bufModel tracks which part of the file a reader with a 4096-byte buffer
+// (bufio's default, what every buffered file reader in Go uses) holds while the
+// file is consumed sequentially: small reads refill an empty buffer with the
+// next <= 4096 bytes; a read of >= 4096 bytes on an empty buffer goes directly
+// to the file.  It only serves to name the input class of finding F10 and to
+// keep inputs of that class out of the malformed-input units while the finding
+// is open.
+type bufModel struct {
+	size    int
+	pos     int // consumed
+	fillEnd int // buffer holds [pos, fillEnd)
+}
+
+func (b *bufModel) small(n int) {
+	for n > 0 {
+		if b.pos == b.fillEnd {
+			b.fillEnd = min(b.pos+4096, b.size)
+			if b.fillEnd == b.pos {
+				return
+			}
+		}
+		k := min(n, b.fillEnd-b.pos)
+		b.pos += k
+		n -= k
+	}
+}
+
+// str consumes a string of n bytes; it reports whether a single buffered read
+// would return fewer bytes although the file has more.
+func (b *bufModel) str(n int) bool {
+	if n == 0 {
+		return false
+	}
+	if b.pos == b.fillEnd {
+		if n >= 4096 {
+			b.pos = min(b.pos+n, b.size)
+			b.fillEnd = b.pos
+			return false
+		}
+		b.fillEnd = min(b.pos+4096, b.size)
+	}
+	avail := b.fillEnd - b.pos
+	if n <= avail {
+		b.pos += n
+		return false
+	}
+	short := b.fillEnd < b.size
+	b.small(n)
+	return short
 }
 
 func walkMPCLC(data []byte) *mLayout {
 	l := &mLayout{}
 	pos := 0
+	bm := &bufModel{size: len(data)}
 	u32 := func(kind int) (uint32, bool) {
 		if pos+4 > len(data) {
 			return 0, false
 		}
+		bm.small(4)
 		v := binary.BigEndian.Uint32(data[pos:])
 		l.U32 = append(l.U32, len(l.Fields))
 		l.Fields = append(l.Fields, mField{Off: pos, Kind: kind})
@@ -106,8 +160,8 @@ func walkMPCLC(data []byte) *mLayout {
 			return false
 		}
 		l.Strings = append(l.Strings, mString{LenOff: lenOff, Off: pos, Len: int(n), IsType: isType})
-		if n > 0 && pos+int(n) > 4096 && len(data) > 4096 {
-			l.BeyondFirstBlock = true
+		if bm.str(int(n)) {
+			l.AcrossBuffer = true
 		}
 		if pos+int(n) > len(data) {
 			pos = len(data)
